@@ -31,7 +31,10 @@ func ntCases(maxN int) []ntCase {
 }
 
 func randPayload(r *sched.Rng) []byte {
-	switch r.Intn(6) {
+	switch r.Intn(7) {
+	case 6:
+		// a text file as editors and `echo` leave it, or a root whose last byte happens to be a line break
+		return append(r.Bytes(4+r.Intn(28)), []string{"\n", "\r\n", "\n\n", "\r"}[r.Intn(4)]...)
 	case 0:
 		return []byte{byte(r.Intn(256))}
 	case 1:
@@ -48,7 +51,7 @@ func randPayload(r *sched.Rng) []byte {
 var fileNames = []string{"plain.txt", "with space.bin", "ünïcødé-файл", "a/b/../c", "dup", "x"}
 
 func checkC01(c *Ctx) {
-	c.Rule = "full ceremonies (real nodes + real airgapped machines) for (n,t) configurations under seeded random schedules; per ceremony 2-3 batches (explicit payloads, baked windows, one payload re-proposed with a different signer subset). Every signature value in every reconstruction broadcast, every node's store and every export is judged by prysm/blst against the harness-expanded payload and compared byte-for-byte per payload. distinct = distinct (n,t,signer-subset,batch-kind) combinations that produced at least one judged signature"
+	c.Rule = "full ceremonies (real nodes + real airgapped machines) for (n,t) configurations under seeded random schedules; per ceremony 2-3 batches (explicit payloads, baked windows, one payload re-proposed with a different signer subset). Every signature value in every reconstruction broadcast, every node's store and every export is judged by prysm/blst against the harness-expanded payload and compared byte-for-byte per payload. On every channel the proposal on the board is compared with what the operator handed in (file name -> bytes; CLI directories contain sub-directories; payloads may end in line breaks); one long baked window (101..260 messages) per small (n,t). distinct = distinct (n,t,signer-subset,batch-kind) combinations that produced at least one judged signature"
 	c.Assumptions = []string{"prysm/blst is the independent Ethereum BLS verifier", "airgapped.N (scrypt cost) lowered to 4: does not touch signing", "in-memory board with the file board's ID/offset assignment"}
 	cases := ntCases(c.Pick(5, 5))
 	if c.Thorough() {
@@ -236,6 +239,9 @@ func runC01Case(c *Ctx, n, t int, rep uint64) {
 			}
 		}
 		prop, err := ce.RunBatch(spec, world.RandomPolicy)
+		if ce.ProposalMismatch != "" {
+			c.Violate("C01/proposal-differs-from-what-was-handed-in", fmt.Sprintf("%s channel: %s", wit["operator_channel"], ce.ProposalMismatch), wit)
+		}
 		if err != nil {
 			c.Inconclusive("batch n=%d t=%d seed=%d: %v", n, t, seed, err)
 			return
